@@ -1,15 +1,20 @@
 import SaphyrVerif.Spec.EmitReader
 /-!
-C13 proof machinery, part 1: the proved FRAGMENT of the value grammar and a flag-free structural
-LAYOUT function (`layRoot`) describing the lines the emitter produces for it.  `Lemmas/C13_Emit.lean`
-proves that the emitter state machine produces exactly this layout (the emitter invariant);
-`Lemmas/C13_Read.lean` proves that the reference reader maps the layout back to `erase v`.
+C13 proof machinery, part 1: the proved FRAGMENT of the value grammar (`inFragP P`: over a class `P` of
+strings) and a flag-free structural LAYOUT function (`layRoot T`: over token functions `T` that give the text
+written for a string value / string key / variant name / unit variant) describing the lines the emitter
+produces for it.  `Lemmas/C13_Emit.lean` proves that the emitter state machine produces exactly this layout
+(the emitter invariant) whenever the scalar-text functions satisfy the write contract for `P` and `T`;
+`Lemmas/C13_Read.lean` proves that the reference reader maps the layout back to `erase v` whenever the tokens
+satisfy the read contract.  Instances: the SAFE class (`Lemmas/C13_Safe.lean`, any scalar-text functions with
+`SafeContract`) and arbitrary strings for the crate's own functions (`Lemmas/C13_Compose.lean`).
 
-Fragment: null (unit / none), booleans, integers, safe strings, options, ordinary newtype structs,
-block sequences, tuples and tuple structs, block mappings / structs whose keys are safe strings or
+Fragment: null (unit / none), booleans, integers, strings of the class, options, ordinary newtype structs,
+block sequences, tuples and tuple structs, block mappings / structs whose keys are strings of the class or
 composite (sequences, mappings, variants with data of the fragment, written `? key` / `: value`) and
-pairwise different, unit, newtype, tuple and struct variants, nested arbitrarily.  Options: every `indent_step ≥ 1`, `compact_list_indent` on or off,
-`empty_as_braces`, no `quote_all`, no `yaml_12`, no `tagged_enums`.
+pairwise different, unit, newtype, tuple and struct variants, nested arbitrarily.  Options: every
+`indent_step ≥ 1`, `compact_list_indent` on or off, `empty_as_braces`; `yaml_12` (the prologue), `quote_all`
+and `tagged_enums` (the tokens) on or off.
 -/
 namespace SaphyrVerif.Emit
 open SaphyrVerif
@@ -35,36 +40,77 @@ structure SafeContract (f : ScalarFns) : Prop where
   value : ∀ s y fl, isSafeStr s = true → f.isPlainValueSafe s y fl = true
   shape : ∀ s, isSafeStr s = true → f.isUnsafePlainShape s = false
 
-/-- the option vectors of the proved fragment -/
+/-- the option vectors of the proved fragment: every `indent_step ≥ 1`, `empty_as_braces`; `yaml_12`,
+`quote_all`, `tagged_enums`, `compact_list_indent`, `min_fold_chars`, `folded_wrap_chars`,
+`prefer_block_scalars` arbitrary -/
 structure FragOpts (o : Opts) : Prop where
   indent : o.indentStep ≥ 1
   braces : o.emptyAsBraces = true
+
+/-- the option vectors of the C20 flow / literal fragments: the scalar-style options off -/
+structure PlainOpts (o : Opts) : Prop extends FragOpts o where
   quoteAll : o.quoteAll = false
-  yaml12 : o.yaml12 = false
   tagged : o.taggedEnums = false
 
+/-- the scalar tokens of a layout: the text written for a string in value position, for a string
+key, for the name of a variant with data (the key of `Variant: payload`), for a unit variant in value
+position (enum name, variant name) -/
+structure Toks where
+  str : List Char → List Char
+  key : List Char → List Char
+  name : List Char → List Char
+  unit : List Char → List Char → List Char
+
+/-- every string is written as itself -/
+def plainToks : Toks := ⟨fun s => s, fun s => s, fun s => s, fun _ n => n⟩
+
+/-- the classes of strings a fragment admits as string leaves, as string keys, as names of variants
+with data, as (enum name, variant name) of unit variants -/
+structure LeafPred where
+  str : List Char → Bool
+  key : List Char → Bool
+  name : List Char → Bool
+  unit : List Char → List Char → Bool
+
+/-- characters a line of the dialect can carry: no line break (LF, CR), no NUL -/
+def lineChar (c : Char) : Bool := c != '\n' && c != '\r' && c != Char.ofNat 0
+
+/-- characters of an (ASCII) Rust identifier -/
+def isIdentChar (c : Char) : Bool :=
+  ('a' ≤ c && c ≤ 'z') || ('A' ≤ c && c ≤ 'Z') || ('0' ≤ c && c ≤ '9') || c == '_'
+
+/-- an enum name that can stand in a tag (`tagged_enums` writes `!!Enum variant` with the enum name as it
+is): a non-empty ASCII identifier -/
+def tagNameOk (e : List Char) : Bool := !e.isEmpty && e.all isIdentChar
+
+/-- the SAFE class everywhere (strings longer than `folded_wrap_chars` are auto-folded: not in the class);
+under `tagged_enums` the enum name of a unit variant must be able to stand in a tag -/
+def safePred (o : Opts) : LeafPred :=
+  ⟨fun s => isSafeStr s && s.length ≤ o.foldedWrapCol, isSafeStr, isSafeStr,
+   fun e n => isSafeStr n && n.length ≤ o.foldedWrapCol && (!o.taggedEnums || tagNameOk e)⟩
+
 /-- the scalar token of a fragment leaf -/
-def leafTok : SVal → Option (List Char)
+def leafTok (T : Toks) : SVal → Option (List Char)
   | .unit => some "null".toList
   | .none => some "null".toList
   | .bool b => some (if b then "true".toList else "false".toList)
   | .int i => some (intText i)
-  | .str s => some s
-  | .unitVariant _ n => some n
+  | .str s => some (T.str s)
+  | .unitVariant e n => some (T.unit e n)
   | _ => none
 
 def keyOf : SVal → Option (List Char)
   | .str k => some k
   | _ => none
 
-/-- a safe string key -/
-def isSafeKey (k : SVal) : Bool :=
+/-- a string key of the class -/
+def keyOk (P : LeafPred) (k : SVal) : Bool :=
   match keyOf k with
-  | some kt => isSafeStr kt
+  | some kt => P.key kt
   | none => false
 
-theorem isSafeKey_iff {k : SVal} (h : isSafeKey k = true) : ∃ kt, k = .str kt ∧ isSafeStr kt = true := by
-  cases k <;> simp [isSafeKey, keyOf] at h
+theorem keyOk_iff {P : LeafPred} {k : SVal} (h : keyOk P k = true) : ∃ kt, k = .str kt ∧ P.key kt = true := by
+  cases k <;> simp [keyOk, keyOf] at h
   exact ⟨_, rfl, h⟩
 
 /-- the non-scalar keys of the fragment (written as explicit keys `? key`) -/
@@ -81,35 +127,41 @@ def isComplexKey : SVal → Bool
   | _ => false
 
 mutual
-/-- the proved fragment (`w` = `folded_wrap_chars`: longer strings are auto-folded) -/
-def inFrag (w : Nat) : SVal → Bool
+/-- the proved fragment over a class `P` of strings -/
+def inFragP (P : LeafPred) : SVal → Bool
   | .unit => true
   | .none => true
   | .bool _ => true
   | .int _ => true
-  | .str s => isSafeStr s && s.length ≤ w
-  | .unitVariant _ n => isSafeStr n && n.length ≤ w
-  | .some v => inFrag w v
-  | .newtypeStruct v => inFrag w v
-  | .seq xs => inFragList w xs
-  | .tuple xs => inFragList w xs
-  | .tupleStruct xs => inFragList w xs
-  | .map _ es => inFragEntries w es && !hasDupKey (eraseEntries es)
-  | .newtypeVariant n v => isSafeStr n && inFrag w v
-  | .tupleVariant n xs => isSafeStr n && inFragList w xs
-  | .structVariant n fs => isSafeStr n && (inFragEntries w fs && !hasDupKey (eraseEntries fs))
+  | .str s => P.str s
+  | .unitVariant e n => P.unit e n
+  | .some v => inFragP P v
+  | .newtypeStruct v => inFragP P v
+  | .seq xs => inFragListP P xs
+  | .tuple xs => inFragListP P xs
+  | .tupleStruct xs => inFragListP P xs
+  | .map _ es => inFragEntriesP P es && !hasDupKey (eraseEntries es)
+  | .newtypeVariant n v => P.name n && inFragP P v
+  | .tupleVariant n xs => P.name n && inFragListP P xs
+  | .structVariant n fs => P.name n && (inFragEntriesP P fs && !hasDupKey (eraseEntries fs))
   | _ => false
-def inFragList (w : Nat) : List SVal → Bool
+def inFragListP (P : LeafPred) : List SVal → Bool
   | [] => true
-  | v :: vs => inFrag w v && inFragList w vs
-def inFragEntries (w : Nat) : List (SVal × SVal) → Bool
+  | v :: vs => inFragP P v && inFragListP P vs
+def inFragEntriesP (P : LeafPred) : List (SVal × SVal) → Bool
   | [] => true
-  | (k, v) :: es => (isSafeKey k || (isComplexKey k && inFrag w k)) && inFrag w v && inFragEntries w es
+  | (k, v) :: es => (keyOk P k || (isComplexKey k && inFragP P k)) && inFragP P v && inFragEntriesP P es
+end
+
+/-- the fragment with SAFE strings (for the option vector `o`: `folded_wrap_chars`, `tagged_enums`) -/
+abbrev inFrag (o : Opts) (v : SVal) : Bool := inFragP (safePred o) v
+abbrev inFragList (o : Opts) (xs : List SVal) : Bool := inFragListP (safePred o) xs
+abbrev inFragEntries (o : Opts) (es : List (SVal × SVal)) : Bool := inFragEntriesP (safePred o) es
+
 /-- key texts (only meaningful for string keys) -/
 def keysOf : List (SVal × SVal) → List (List Char)
   | [] => []
   | (k, _) :: es => (match k with | .str s => s | _ => []) :: keysOf es
-end
 
 /-! ### layout
 
@@ -146,107 +198,125 @@ mutual
 `inMap` = `current_map_depth` is set (always, except for the payload of a variant at the root);
 `lvb` = the incoming `last_value_was_block`.  Result: rest of the key line, the following lines,
 outgoing `lvb`. -/
-def layVal (k : Nat) (cp inMap : Bool) (c : Nat) (lvb : Bool) : SVal → List Char × List Line × Bool
-  | .some v => layVal k cp inMap c lvb v
-  | .newtypeStruct v => layVal k cp inMap c lvb v
-  | .seq xs => seqValOf xs.isEmpty (layItems k cp (seqCol k cp inMap c) false xs).1
-  | .tuple xs => seqValOf xs.isEmpty (layItems k cp (seqCol k cp inMap c) false xs).1
-  | .tupleStruct xs => seqValOf xs.isEmpty (layItems k cp (seqCol k cp inMap c) false xs).1
-  | .map _ es => mapValOf (c + k) lvb es.isEmpty (layEntries k cp (c + k) false es).1
-  | .newtypeVariant n v => variantVal (c + k) n (layVal k cp true (c + k) lvb v)
-  | .tupleVariant n xs => variantVal (c + k) n (seqValOf xs.isEmpty (layItems k cp (seqCol k cp true (c + k)) false xs).1)
-  | .structVariant n fs => variantVal (c + k) n (mapValOf (c + k + k) lvb fs.isEmpty (layEntries k cp (c + k + k) false fs).1)
+def layVal (T : Toks) (k : Nat) (cp inMap : Bool) (c : Nat) (lvb : Bool) : SVal → List Char × List Line × Bool
+  | .some v => layVal T k cp inMap c lvb v
+  | .newtypeStruct v => layVal T k cp inMap c lvb v
+  | .seq xs => seqValOf xs.isEmpty (layItems T k cp (seqCol k cp inMap c) false xs).1
+  | .tuple xs => seqValOf xs.isEmpty (layItems T k cp (seqCol k cp inMap c) false xs).1
+  | .tupleStruct xs => seqValOf xs.isEmpty (layItems T k cp (seqCol k cp inMap c) false xs).1
+  | .map _ es => mapValOf (c + k) lvb es.isEmpty (layEntries T k cp (c + k) false es).1
+  | .newtypeVariant n v => variantVal (c + k) (T.name n) (layVal T k cp true (c + k) lvb v)
+  | .tupleVariant n xs => variantVal (c + k) (T.name n) (seqValOf xs.isEmpty (layItems T k cp (seqCol k cp true (c + k)) false xs).1)
+  | .structVariant n fs => variantVal (c + k) (T.name n) (mapValOf (c + k + k) lvb fs.isEmpty (layEntries T k cp (c + k + k) false fs).1)
   | .unit => (' ' :: "null".toList, [], false)
   | .none => (' ' :: "null".toList, [], false)
   | .bool b => (' ' :: (if b then "true".toList else "false".toList), [], false)
   | .int i => (' ' :: intText i, [], false)
-  | .str s => (' ' :: s, [], false)
-  | .unitVariant _ n => (' ' :: n, [], false)
+  | .str s => (' ' :: T.str s, [], false)
+  | .unitVariant e n => (' ' :: T.unit e n, [], false)
   | _ => ([], [], lvb)
 /-- value right after `- ` of a sequence whose dashes are at column `c` -/
-def layItem (k : Nat) (cp : Bool) (c : Nat) (lvb : Bool) : SVal → List Char × List Line × Bool
-  | .some v => layItem k cp c lvb v
-  | .newtypeStruct v => layItem k cp c lvb v
-  | .seq xs => laySeqItem k cp c lvb xs
-  | .tuple xs => laySeqItem k cp c lvb xs
-  | .tupleStruct xs => laySeqItem k cp c lvb xs
-  | .map _ es => layMapItem k cp c lvb es
-  | .newtypeVariant n v => variantItem n (layVal k cp true (c + 2) lvb v)
-  | .tupleVariant n xs => variantItem n (seqValOf xs.isEmpty (layItems k cp (seqCol k cp true (c + 2)) false xs).1)
-  | .structVariant n fs => variantItem n (mapValOf (c + 2 + k) lvb fs.isEmpty (layEntries k cp (c + 2 + k) false fs).1)
+def layItem (T : Toks) (k : Nat) (cp : Bool) (c : Nat) (lvb : Bool) : SVal → List Char × List Line × Bool
+  | .some v => layItem T k cp c lvb v
+  | .newtypeStruct v => layItem T k cp c lvb v
+  | .seq xs => laySeqItem T k cp c lvb xs
+  | .tuple xs => laySeqItem T k cp c lvb xs
+  | .tupleStruct xs => laySeqItem T k cp c lvb xs
+  | .map _ es => layMapItem T k cp c lvb es
+  | .newtypeVariant n v => variantItem (T.name n) (layVal T k cp true (c + 2) lvb v)
+  | .tupleVariant n xs => variantItem (T.name n) (seqValOf xs.isEmpty (layItems T k cp (seqCol k cp true (c + 2)) false xs).1)
+  | .structVariant n fs => variantItem (T.name n) (mapValOf (c + 2 + k) lvb fs.isEmpty (layEntries T k cp (c + 2 + k) false fs).1)
   | .unit => ("null".toList, [], false)
   | .none => ("null".toList, [], false)
   | .bool b => ((if b then "true".toList else "false".toList), [], false)
   | .int i => (intText i, [], false)
-  | .str s => (s, [], false)
-  | .unitVariant _ n => (n, [], false)
+  | .str s => (T.str s, [], false)
+  | .unitVariant e n => (T.unit e n, [], false)
   | _ => ([], [], lvb)
 /-- a sequence right after `- ` (at column `c`): its first item stays on the line, all its dashes at `c + 2` -/
-def laySeqItem (k : Nat) (cp : Bool) (c : Nat) (lvb : Bool) : List SVal → List Char × List Line × Bool
+def laySeqItem (T : Toks) (k : Nat) (cp : Bool) (c : Nat) (lvb : Bool) : List SVal → List Char × List Line × Bool
   | [] => ("[]".toList, [], lvb)
   | x :: xs =>
-    let r := layItem k cp (c + 2) lvb x
-    let r2 := layItems k cp (c + 2) r.2.2 xs
+    let r := layItem T k cp (c + 2) lvb x
+    let r2 := layItems T k cp (c + 2) r.2.2 xs
     (['-', ' '] ++ r.1, r.2.1 ++ r2.1, true)
 /-- a mapping right after `- ` (at column `c`): first key inline (the key prefix resets `lvb`), all its keys at `c + 2` -/
-def layMapItem (k : Nat) (cp : Bool) (c : Nat) (lvb : Bool) : List (SVal × SVal) → List Char × List Line × Bool
+def layMapItem (T : Toks) (k : Nat) (cp : Bool) (c : Nat) (lvb : Bool) : List (SVal × SVal) → List Char × List Line × Bool
   | [] => ("{}".toList, [], lvb)
   | (key, v) :: rest =>
     match keyOf key with
     | some kt =>
-      let r := layVal k cp true (c + 2) false v
-      let r2 := layEntries k cp (c + 2) r.2.2 rest
-      (kt ++ [':'] ++ r.1, r.2.1 ++ r2.1, true)
+      let r := layVal T k cp true (c + 2) false v
+      let r2 := layEntries T k cp (c + 2) r.2.2 rest
+      (T.key kt ++ [':'] ++ r.1, r.2.1 ++ r2.1, true)
     | none =>
       -- a composite first key: `- ? key`, then `: value` under the `?`
-      let rk := layItem k cp (c + 2) false key
-      let rv := layItem k cp (c + 2) false v
-      let r2 := layEntries k cp (c + 2) rv.2.2 rest
+      let rk := layItem T k cp (c + 2) false key
+      let rv := layItem T k cp (c + 2) false v
+      let r2 := layEntries T k cp (c + 2) rv.2.2 rest
       (['?', ' '] ++ rk.1, rk.2.1 ++ ⟨c + 2, [':', ' '] ++ rv.1⟩ :: rv.2.1 ++ r2.1, true)
 /-- the items of a block sequence whose dashes are at column `c`, each starting its own line -/
-def layItems (k : Nat) (cp : Bool) (c : Nat) (lvb : Bool) : List SVal → List Line × Bool
+def layItems (T : Toks) (k : Nat) (cp : Bool) (c : Nat) (lvb : Bool) : List SVal → List Line × Bool
   | [] => ([], lvb)
   | x :: xs =>
-    let r := layItem k cp c lvb x
-    let r2 := layItems k cp c r.2.2 xs
+    let r := layItem T k cp c lvb x
+    let r2 := layItems T k cp c r.2.2 xs
     (⟨c, ['-', ' '] ++ r.1⟩ :: r.2.1 ++ r2.1, r2.2)
 /-- the entries of a block mapping whose keys are at column `c`, each starting its own line -/
-def layEntries (k : Nat) (cp : Bool) (c : Nat) (lvb : Bool) : List (SVal × SVal) → List Line × Bool
+def layEntries (T : Toks) (k : Nat) (cp : Bool) (c : Nat) (lvb : Bool) : List (SVal × SVal) → List Line × Bool
   | [] => ([], lvb)
   | (key, v) :: es =>
     match keyOf key with
     | some kt =>
-      let r := layVal k cp true c lvb v
-      let r2 := layEntries k cp c r.2.2 es
-      (⟨c, kt ++ [':'] ++ r.1⟩ :: r.2.1 ++ r2.1, r2.2)
+      let r := layVal T k cp true c lvb v
+      let r2 := layEntries T k cp c r.2.2 es
+      (⟨c, T.key kt ++ [':'] ++ r.1⟩ :: r.2.1 ++ r2.1, r2.2)
     | none =>
       -- a composite key: `? key` and `: value`, each laid out like a sequence item after its dash
-      let rk := layItem k cp c lvb key
-      let rv := layItem k cp c false v
-      let r2 := layEntries k cp c rv.2.2 es
+      let rk := layItem T k cp c lvb key
+      let rv := layItem T k cp c false v
+      let r2 := layEntries T k cp c rv.2.2 es
       (⟨c, ['?', ' '] ++ rk.1⟩ :: rk.2.1 ++ ⟨c, [':', ' '] ++ rv.1⟩ :: rv.2.1 ++ r2.1, r2.2)
 end
 
 /-- the document of a root value (`k` = `indent_step`, `cp` = `compact_list_indent`) -/
-def layRoot (k : Nat) (cp : Bool) : SVal → List Line
-  | .some v => layRoot k cp v
-  | .newtypeStruct v => layRoot k cp v
-  | .seq xs => if xs.isEmpty then [⟨0, "[]".toList⟩] else (layItems k cp 0 false xs).1
-  | .tuple xs => if xs.isEmpty then [⟨0, "[]".toList⟩] else (layItems k cp 0 false xs).1
-  | .tupleStruct xs => if xs.isEmpty then [⟨0, "[]".toList⟩] else (layItems k cp 0 false xs).1
-  | .map _ es => if es.isEmpty then [⟨0, "{}".toList⟩] else (layEntries k cp 0 false es).1
+def layRoot (T : Toks) (k : Nat) (cp : Bool) : SVal → List Line
+  | .some v => layRoot T k cp v
+  | .newtypeStruct v => layRoot T k cp v
+  | .seq xs => if xs.isEmpty then [⟨0, "[]".toList⟩] else (layItems T k cp 0 false xs).1
+  | .tuple xs => if xs.isEmpty then [⟨0, "[]".toList⟩] else (layItems T k cp 0 false xs).1
+  | .tupleStruct xs => if xs.isEmpty then [⟨0, "[]".toList⟩] else (layItems T k cp 0 false xs).1
+  | .map _ es => if es.isEmpty then [⟨0, "{}".toList⟩] else (layEntries T k cp 0 false es).1
   | .newtypeVariant n v =>
-    let r := layVal k cp false 0 false v
-    ⟨0, n ++ [':'] ++ r.1⟩ :: r.2.1
+    let r := layVal T k cp false 0 false v
+    ⟨0, T.name n ++ [':'] ++ r.1⟩ :: r.2.1
   | .tupleVariant n xs =>
-    let r := seqValOf xs.isEmpty (layItems k cp k false xs).1
-    ⟨0, n ++ [':'] ++ r.1⟩ :: r.2.1
+    let r := seqValOf xs.isEmpty (layItems T k cp k false xs).1
+    ⟨0, T.name n ++ [':'] ++ r.1⟩ :: r.2.1
   | .structVariant n fs =>
-    let r := mapValOf k false fs.isEmpty (layEntries k cp k false fs).1
-    ⟨0, n ++ [':'] ++ r.1⟩ :: r.2.1
-  | v => match leafTok v with
+    let r := mapValOf k false fs.isEmpty (layEntries T k cp k false fs).1
+    ⟨0, T.name n ++ [':'] ++ r.1⟩ :: r.2.1
+  | v => match leafTok T v with
     | some tok => [⟨0, tok⟩]
     | none => []
+
+/-- the text `write_indent` puts before the first token of the document under `yaml_12` -/
+def prologueText : List Char :=
+  ['%', 'Y', 'A', 'M', 'L', ' ', '1', '.', '2', '\n', '-', '-', '-', '\n']
+
+theorem prologueText_eq : "%YAML 1.2\n---\n".toList = prologueText := by decide
+
+/-- the prologue of a document: the `%YAML 1.2` directive and the document start marker under
+`yaml_12`, nothing otherwise -/
+def prologue (o : Opts) : List Char := if o.yaml12 then prologueText else []
+
+/-- the directive line `%YAML 1.2` -/
+def directiveLine : Line := ⟨0, ['%', 'Y', 'A', 'M', 'L', ' ', '1', '.', '2']⟩
+/-- the document start marker line `---` -/
+def startLine : Line := ⟨0, ['-', '-', '-']⟩
+
+/-- the lines of the prologue -/
+def prologueLines (o : Opts) : List Line := if o.yaml12 then [directiveLine, startLine] else []
 
 /-- text of a list of lines -/
 def renderLines : List Line → List Char
